@@ -138,7 +138,8 @@ class Parser(object):
             if member.bound:
                 bound, _, __ = next(six.ifilter(lambda m: m[0].name == member.bound, members[:i]), (None, None, None))
                 if bound:
-                    self._parser_check(self._is_type_sizer_compatible(bound.type_name),
+                    self._parser_check(self._is_type_sizer_compatible(bound.type_name) and not bound.is_array
+                                       and not bound.optional,
                                        "Sizer of '{}' has to be of (unsigned) integer type".format(name),
                                        line, pos)
                 else:
@@ -149,6 +150,23 @@ class Parser(object):
             self._parser_check(
                 not member.greedy and member.kind != model.Kind.UNLIMITED,
                 "greedy array field '{}' not last".format(member.name),
+                line, pos
+            )
+
+        for member, line, pos in members:
+            self._parser_check(
+                not (member.is_array and member.kind == model.Kind.UNLIMITED),
+                "array field '{}' of unlimited type".format(member.name),
+                line, pos
+            )
+            self._parser_check(
+                not ((member.is_fixed or member.is_limited) and member.kind == model.Kind.DYNAMIC),
+                "fixed or limited array field '{}' of dynamic type".format(member.name),
+                line, pos
+            )
+            self._parser_check(
+                not (member.optional and member.kind != model.Kind.FIXED),
+                "optional field '{}' of dynamic type".format(member.name),
                 line, pos
             )
 
